@@ -99,6 +99,51 @@ type Ref struct {
 	Src      Source
 	Loader   *loader.Loader
 	Provider tq.SecretProvider
+	relay    *relay
+}
+
+// relay sits between the loader front end's channel and loader.Loader: it forwards
+// every published configuration unchanged and keeps the value (which shares its slices
+// with what the server goes on to use) together with a snapshot taken at that moment.
+type relay struct {
+	out   chan config.ServerConfig
+	mu    sync.Mutex
+	vals  []config.ServerConfig
+	snaps []string
+}
+
+func newRelay(in chan config.ServerConfig) *relay {
+	r := &relay{out: make(chan config.ServerConfig)}
+	go func() {
+		for v := range in {
+			r.mu.Lock()
+			r.vals = append(r.vals, v)
+			r.snaps = append(r.snaps, Canon(v))
+			r.mu.Unlock()
+			r.out <- v
+		}
+	}()
+	return r
+}
+
+// Config implements the loader's unmarshaled interface.
+func (r *relay) Config() chan config.ServerConfig { return r.out }
+
+// MutatedPublished returns the indices of published configurations that no longer equal
+// the snapshot taken when they were published.
+func (rf *Ref) MutatedPublished() []int {
+	if rf.relay == nil {
+		return nil
+	}
+	rf.relay.mu.Lock()
+	defer rf.relay.mu.Unlock()
+	var out []int
+	for i := range rf.relay.vals {
+		if Canon(rf.relay.vals[i]) != rf.relay.snaps[i] {
+			out = append(out, i)
+		}
+	}
+	return out
 }
 
 // LoaderOptions returns the option set cmds/server/main.go uses, over simulated seams.
@@ -130,7 +175,8 @@ func BuildRef(ctx context.Context, w *world.World, lg *Logger, kc *Keychain, for
 	if err != nil {
 		return nil, err
 	}
-	ld, err := loader.NewLoader(ctx, src, opts...)
+	rl := newRelay(src.Config())
+	ld, err := loader.NewLoader(ctx, rl, opts...)
 	if err != nil {
 		return nil, err
 	}
@@ -139,7 +185,7 @@ func BuildRef(ctx context.Context, w *world.World, lg *Logger, kc *Keychain, for
 	for i := range clients {
 		b.conns[AddrOf(&clients[i], i).String()] = i + 1
 	}
-	return &Ref{Src: src, Loader: ld, Provider: b}, nil
+	return &Ref{Src: src, Loader: ld, Provider: b, relay: rl}, nil
 }
 
 // Binder wraps a SecretProvider: it records the admission decision per connection and
